@@ -436,6 +436,7 @@ type FuncContract struct {
 	NoHeap     bool // callee does not modify caller-visible heap (checked for functions with bodies, assumed for externals)
 	WritesArg  int  // external callee writes (only) the object its N-th argument points to; -1 = none
 	CallsArg   int  // external callee invokes its N-th argument (a func literal) exactly once; -1 = none
+	OnceGuard  string // with CallsArg: name of the ghost map guarding the invocation (sync.Once)
 	GhostVars  []*GhostVar
 	Updates    []*GhostUpdate
 	Asserts    []*GhostUpdate // assert @anchor: expr (Var empty)
@@ -803,7 +804,7 @@ func (db *ContractDB) ParseContracts(file string, lines []string, lineNos []int,
 					curF.Assigns = append(curF.Assigns, a)
 				}
 			}
-		case "pure", "trusted", "safe", "inline", "noheap", "writes_arg", "calls_arg":
+		case "pure", "trusted", "safe", "inline", "noheap", "writes_arg", "calls_arg", "calls_arg_once":
 			if err := finish(); err != nil {
 				return err
 			}
@@ -815,6 +816,9 @@ func (db *ContractDB) ParseContracts(file string, lines []string, lineNos []int,
 				fmt.Sscanf(rest, "%d", &curF.WritesArg)
 			case "calls_arg":
 				fmt.Sscanf(rest, "%d", &curF.CallsArg)
+			case "calls_arg_once":
+				// calls_arg_once N GUARD : the literal runs iff ghost GUARD[receiver] is false; then GUARD is set
+				fmt.Sscanf(rest, "%d %s", &curF.CallsArg, &curF.OnceGuard)
 			case "pure":
 				curF.Pure = true
 			case "trusted":
